@@ -4,6 +4,7 @@ import "verif/harness/internal/core"
 
 // Registry maps property ids to their checks.
 var Registry = map[string]func(*core.Run){
+	"C01": C01,
 	"C02": C02,
 	"C03": C03,
 	"C06": C06,
